@@ -17,6 +17,9 @@ claimed = {
  'C10': dict(
    text="Proof, all inputs: val.Conv and the scalar conversion helpers toInt8..toUInt64, toDecimal64, toBool are verified in exact machine semantics (bit-vectors, IEEE floats) against denotesInt/denotesFloat: a nil error implies the result denotes exactly the source number for every Go integer kind, float32/float64 (integral and in range, no rounding) and numeric strings (strconv.Parse* trusted). Not decided: the list forms (to*List), time.Time and reflect fall-backs, node.NewValue front end.",
    ref="7 (C10)", technique="deductive verification: weakest-precondition VCs from go/ssa (bit-vector + floating-point theories), contracts in val/contracts_verif.go, discharged by z3/cvc5"),
+ 'C14': dict(
+   text="Proof, all module texts, for the hand-written lexer layer: under the lexer representation invariant (0<=start<=pos<=len(input), ring indices inside the token buffer) every lexer method (next, backup, peek, ignore, isEof, acceptWS, acceptToken, acceptRun, acceptString, acceptNumber, acceptInteger, acceptToks, emit, pushToken, popToken, keyword, Position), the definition stack (push grows, pop/peek/peekModule in range), tokenString, trimQuotes and isPrefixedIdent are proved free of index/slice/nil panics and to re-establish the invariant with exact frames (assigns clauses); the scanning loops of acceptWS (all four), acceptString, acceptNumber, acceptInteger, Position, peekModule are proved terminating (decreases len(input)-pos). Not decided: the goyacc table interpreter yyParse and the grammar actions, lexBegin's statement dispatch, resolver/compiler recursion over cyclic typedefs/identities, loader/opener faults.",
+   ref="7 (C14)", technique="deductive verification: safety and termination obligations (weakest-precondition VCs from go/ssa, checked mathematical integers with no-overflow obligations); contracts in parser/contracts_verif.go; discharged by z3/cvc5"),
  'C17': dict(
    text="Proof, all inputs: every Compare method of package val is verified (exact 64-bit machine semantics, bit-vectors) against the mathematical order cmpv (numeric order for every signed/unsigned width, IEEE order for decimal64, byte order for strings/identity names, id order for enums, false<true); the order laws (range, reflexive, antisymmetric, transitive, strict-transitive, equality-transitive, agreement with integer order) are lemmas over cmpv discharged by SMT. Not decided: reflect-based lookups in nodeutil (reflect is outside the subset).",
    ref="7 (C17)", technique="deductive verification: weakest-precondition VCs from go/ssa, contracts in val/contracts_verif.go, discharged by z3/cvc5"),
